@@ -57,6 +57,29 @@ def _read_frame(fd):
     return pickle.loads(_read_exact(fd, n))
 
 
+def _read_frame_deterministically(fd):
+    """Like _read_frame, but the allocations it makes do not depend on how the pipe happened to
+    chop the data up (one preallocated buffer, filled in place): the reader's heap afterwards is a
+    function of the frame's content only."""
+    head = bytearray(8)
+    _fill(fd, head)
+    (n,) = struct.unpack("<Q", head)
+    buf = bytearray(n)
+    _fill(fd, buf)
+    return pickle.loads(buf)
+
+
+def _fill(fd, buf):
+    view = memoryview(buf)
+    got = 0
+    n = len(buf)
+    while got < n:
+        k = os.readv(fd, [view[got:]])
+        if k == 0:
+            raise EOFError
+        got += k
+
+
 # ------------------------------------------------------------------ server side
 
 
@@ -67,6 +90,13 @@ def main():
     boot()
     import gc
 
+    # a few idle fork cycles first: whatever the first forks release or allocate in this process
+    # (interpreter-internal at-fork work) has happened before the state is declared constant
+    for _i in range(3):
+        pid = os.fork()
+        if pid == 0:
+            os._exit(0)
+        _, status = os.waitpid(pid, 0)  # same names as the serving loop below: same live objects
     gc.collect()
     gc.freeze()  # the zygote's own objects never move through the collector again
     os.write(RES_FD, b"K")
@@ -87,7 +117,7 @@ def main():
                     # the request is canonical JSON text, parsed here: the child's allocation history
                     # (hence which addresses get recycled later) is a function of the request's
                     # *content*, not of how the caller happened to hold it in memory
-                    req = json.loads(_read_frame(REQ_FD))
+                    req = json.loads(_read_frame_deterministically(REQ_FD))
                     from sim.executor import run_ops
 
                     out = ("ok", run_ops(*req))
@@ -104,6 +134,20 @@ def main():
 
 
 # ------------------------------------------------------------------ client side
+
+
+def _no_aslr():
+    """Runs in the child between fork and exec: switch address-space randomisation off for the
+    zygote image.  With ASLR the arenas of CPython's small-object allocator start at random page
+    offsets (an arena whose base is not pool-aligned loses a pool), so *which addresses get
+    recycled* differed from one zygote to the next: a violation that depends on id() reuse found
+    under one zygote did not reproduce under the replay's zygote."""
+    try:
+        import ctypes
+
+        ctypes.CDLL(None, use_errno=True).personality(0x0040000)  # ADDR_NO_RANDOMIZE
+    except Exception:  # noqa: BLE001 - best effort; correct code does not depend on it
+        pass
 
 
 class Zygote:
@@ -140,6 +184,7 @@ class Zygote:
             stderr=None,
             pass_fds=(REQ_FD, RES_FD),
             start_new_session=True,
+            preexec_fn=_no_aslr,
         )
         for fd in (req_r, res_w, REQ_FD, RES_FD):
             os.close(fd)
